@@ -232,8 +232,14 @@ def _build(spec):
             tf[i, :, 0], tf[i, :, 1] = jd_add(spec['sdate'], spec['stime'],
                                               i * dt)
         kw['TFLAG'] = tf
+    fa = fileattrs(spec)
+    if spec['seed'] % 5 == 0:
+        # header reals held as 0-d arrays (what array arithmetic on a header
+        # value leaves behind): mutable objects
+        for k_ in ('XORIG', 'YORIG', 'XCELL', 'YCELL'):
+            fa[k_] = np.array(fa[k_], dtype='f8')
     f = ioapi_base.from_arrays(attrs={'units': 'ppmV'},
-                               fileattrs=fileattrs(spec), **kw)
+                               fileattrs=fa, **kw)
     return f
 
 
